@@ -959,6 +959,8 @@ class Interp:
             return self.cfg.contracts[fi.qualname](self, args, kwargs)
         if len(self.frames) > 60:
             raise Outside("recursion depth")
+        if getattr(fi, "opaque_decorators", None):
+            raise Outside(f"{fi.qualname} is wrapped by @{fi.opaque_decorators[0]}: a call is not an execution of its body")
         a = fi.node.args
         params = [p.arg for p in a.posonlyargs + a.args]
         loc = {}
